@@ -202,6 +202,16 @@ def run_unit(repo_root, unit_dir, out_dir, rlimit=None, timeout=900, extra_args=
     if lemma_fail:
         res.undecided.append("template lemma(s) not proved (repo-independent): %s" % [f["id"] for f in lemma_fail][:5])
         res.failed = [f for f in res.failed if f["fn"] in extracted_names]
+    # a function verified WITHOUT one of its dialect adapters (the adapted expression changed shape) may fail only because the
+    # unrewritten expression has no specification (a closure, an iterator adapter): such failures are undecided, not violations;
+    # the caller then runs the unit's bounded native search in its place
+    if res.unmatched_wraps and res.failed:
+        fns = {w.split(": ", 1)[0].split("::")[-1].strip() for w in res.unmatched_wraps}
+        demoted = [f for f in res.failed if f["fn"] in fns]
+        if demoted:
+            res.undecided.append("function(s) %s verified without adapter(s) %s: %d failed obligation(s) not attributable (%s)" % (
+                sorted(fns), res.unmatched_wraps[:4], len(demoted), [f["id"] for f in demoted][:4]))
+            res.failed = [f for f in res.failed if f["fn"] not in fns]
     return res
 
 
